@@ -112,7 +112,7 @@ theorem toCalls_den_both (w : World) :
           simp only [toCalls, denHead] at ihf2
           split
           · rename_i hin
-            simp only [fcall, den, denHead, denL, denLamL, callSem, List.tail_cons, hin, if_true, iha1, iha2]
+            simp only [fcall, den, denHead, denL, denLamL, callSem, List.tail_cons, hin, if_true, iha1, iha2, ihk1]
             have : den w v = den w v0 := by
               have := ihf2; simp only [Head.meth.injEq] at this; rw [← hv]; exact this.1
             rw [this]
